@@ -178,3 +178,39 @@ func VerifRunWriter(coalesce, writeDelay time.Duration, frames [][]byte, startDe
 	defer conn.mu.Unlock()
 	return res, append([]byte(nil), conn.buf...)
 }
+
+// VerifRefreshDebouncerRace runs `rounds` rounds of {refreshNow ∥ debounce ∥ stop} on a fresh
+// refreshDebouncer and returns how many times stop() had not returned after `patience`.
+func VerifRefreshDebouncerRace(rounds int, patience time.Duration) (hung int) {
+	for i := 0; i < rounds; i++ {
+		d := newRefreshDebouncer(time.Hour, func() error { return nil })
+		done := make(chan struct{})
+		go func() { <-d.refreshNow() }()
+		if i%3 == 0 {
+			go d.debounce()
+		}
+		go func() { d.stop(); close(done) }()
+		select {
+		case <-done:
+		case <-time.After(patience):
+			hung++
+		}
+	}
+	return hung
+}
+
+// VerifEventDebouncerRace: the same for eventDebouncer (debounce ∥ stop).
+func VerifEventDebouncerRace(rounds int, patience time.Duration) (hung int) {
+	for i := 0; i < rounds; i++ {
+		e := newEventDebouncer("verif", func([]frame) {}, nopLogger{})
+		done := make(chan struct{})
+		go e.debounce(&readyFrame{})
+		go func() { e.stop(); close(done) }()
+		select {
+		case <-done:
+		case <-time.After(patience):
+			hung++
+		}
+	}
+	return hung
+}
